@@ -10,7 +10,7 @@ import pulsarbat as pb
 from harness.common import qlit, zlit, optlit, listlit, boollit
 from harness import exact as X
 
-VFILES = ['Lib/PySlice.v', 'Model/FastLen.v', 'Model/Ledger.v', 'Proofs/LedgerProofs.v', 'Gen/GenLedger.v', 'Gen/GenFastLenCrop.v', 'Proofs/LedgerGen.v', 'Props/C01.v',
+VFILES = ['Lib/PySlice.v', 'Model/FastLen.v', 'Model/Ledger.v', 'Proofs/LedgerProofs.v', 'Gen/GenLedger.v', 'Gen/GenFastLenCrop.v', 'Proofs/LedgerGen.v', 'Model/Band.v', 'Model/Getitem.v', 'Gen/GenGetitem.v', 'Proofs/GetitemProofs.v', 'Props/C01.v',
           'Gen/GenUtils.v', 'Proofs/FastLenA.v', 'Proofs/FastLenB.v', 'Proofs/FastLenPrev.v', 'Proofs/FastLenTop.v']
 
 HEADER = '''From Coq Require Import ZArith QArith List. Import ListNotations. Open Scope Z_scope.
@@ -103,7 +103,15 @@ def gen_op(rng, z, malformed):
         if malformed and rng.random() < 0.5:
             c = rng.choice([0, -1, -2])
         term = f'(OSlice {optlit(a, zlit)} {optlit(b, zlit)} {optlit(c, zlit)})'
-        return k, term, (lambda: z[a:b:c]), dict(a=a, b=b, c=c)
+        # the same crop written in every index form __getitem__ accepts (C01_getitem: all of them are time_slice on item 0)
+        forms = ['plain', 'plain', 'tuple1'] + (['freq_full', 'freq_full_ellipsis'] if isinstance(z, pb.RadioSignal) else ['ellipsis'])
+        if z.ndim >= 2:
+            forms.append('axis1_full')
+        form = rng.choice(forms)
+        ix = {'plain': slice(a, b, c), 'tuple1': (slice(a, b, c),), 'ellipsis': (slice(a, b, c), Ellipsis),
+              'freq_full': (slice(a, b, c), slice(None)), 'freq_full_ellipsis': (slice(a, b, c), slice(None), Ellipsis),
+              'axis1_full': (slice(a, b, c), slice(None, None, None))}[form]
+        return k, term, (lambda: z[ix]), dict(a=a, b=b, c=c, form=form)
     if k == 'fast_len':
         return k, 'OFastLen', (lambda: pb.fast_len(z)), {}
     if k == 'snippet':
